@@ -120,6 +120,13 @@ def demoEnv : Env := { suffix := ".ics".toList, hash := fun u => "H".toList ++ u
     gets the digest name -/
 example : (assign demoEnv ["X".toList, "X.ics".toList] []).map (fun p => String.ofList p.1) = ["X.ics", "HX.ics.ics"] := by decide
 
+/-- the contract asked of the random source can be kept (so the theorems above are not vacuous): with a source that
+    hands out a name longer than everything present, any upload — whatever the digest function — gets pairwise different
+    names and loses nothing -/
+theorem bulk_names_distinct_witness (suffix : Str) (hash : Str → Str) (uids : List Str) :
+    ((assign ⟨suffix, hash, freshLong⟩ uids []).map (·.1)).Nodup ∧ (assign ⟨suffix, hash, freshLong⟩ uids []).map (·.2) = uids :=
+  ⟨(bulk_names_distinct _ (freshOk_exists suffix hash) uids []).1, bulk_keeps_every_object _ uids []⟩
+
 /-- seeded change C14f (the "not yet present" test dropped): the same two objects get the same name, and the
     first one is gone after the loop -/
 theorem naive_names_overwrite :
